@@ -21,6 +21,7 @@ pub struct Case {
 }
 #[derive(Default)]
 pub struct Stats {
+    nontrivial: Vec<(usize, u8)>,
     crash_points: u64,
     partial_with_previous: u64,
     records: u64,
@@ -130,6 +131,7 @@ async fn run_cfg<TC: Tcfg>(case: &Case, st: &mut Stats) -> R {
         let written: Vec<DbRecord> = idx.iter().map(|i| recs[*i].clone()).collect();
         if !idx.is_empty() && idx.len() < n && written.iter().any(has_prev) {
             st.partial_with_previous += 1;
+            st.nontrivial.push((pi, TC::CFG as u8));
         }
         let mut content = pre.clone();
         content.retain(|r| !written.iter().any(|wr| wr.get_full_binary_id() == r.get_full_binary_id()));
@@ -168,8 +170,15 @@ pub fn check(case: &Case, ctx: &mut Ctx) -> R {
     ctx.count("partial_crash_points_with_a_rewritten_node", st.partial_with_previous);
     ctx.count("commit_records", st.records);
     ctx.count("reader_instances", st.readers);
+    // every crash point is one execution; distinct non-trivial = distinct (case, configuration, crash point) that is partial and contains a rewritten node
+    if ctx.counting {
+        ctx.evals += st.crash_points.saturating_sub(1);
+    }
+    let cfp = fp_json(case);
+    for x in &st.nontrivial {
+        ctx.nontrivial(fp(&(cfp, x)));
+    }
     if st.partial_with_previous > 0 {
-        ctx.nontrivial(fp_json(case));
         ctx.sample(case);
     }
     r
@@ -192,7 +201,7 @@ pub fn run(eng: &mut Engine) {
     eng.assume("record-level atomicity of the storage layer (as akd documents); the epoch record is written last (asserted on the captured batch)");
     eng.prop_part(
         "crash_points",
-        "generated histories whose last publish creates, splits and updates nodes; its commit batch is captured instead of written; crash points = every prefix of the non-epoch records in key order and in reverse key order + generated subsets, each applied to a copy of the pre-publish database; a fresh ReadOnlyDirectory (no cache) and a fresh Directory (new cache) must report the model's previous (epoch, root) and serve lookups, histories and audits equal to the model at that epoch, labels of the unfinished epoch unknown; finally the complete batch must serve the new epoch; non-trivial = partial crash point containing a rewritten node (one with a previous version); distinct by case",
+        "generated histories whose last publish creates, splits and updates nodes; its commit batch is captured instead of written; crash points = every prefix of the non-epoch records in key order and in reverse key order + generated subsets, each applied to a copy of the pre-publish database; a fresh ReadOnlyDirectory (no cache) and a fresh Directory (new cache) must report the model's previous (epoch, root) and serve lookups, histories and audits equal to the model at that epoch, labels of the unfinished epoch unknown; finally the complete batch must serve the new epoch; evaluations = crash points; non-trivial = partial crash point containing a rewritten node (one with a previous version), distinct by (case, configuration, crash point)",
         eng.tier.pick(250, 4000),
         move || strategy(thorough),
         check,
